@@ -189,7 +189,14 @@ func c06check1(p *AllProject, r *rbT, files []string, srcs [][]byte, oi int, src
 
 func VerifRun_C06() {
 	lo, hi := verifParam("TMIN"), verifParam("TMAX")
+	extra := verifParamOr("TEXTRA", 0) // one more template from beyond the shared range
+	if extra > 0 {
+		hi++
+	}
 	ti := verifConcretize(verifRange("template", lo, hi))
+	if extra > 0 && ti == hi {
+		ti = extra
+	}
 	t := vpTemplates[ti]
 	if verifParam("LAYOUTS") > 1 && verifConcretize(verifRange("layout", 0, 1)) == 1 {
 		t = vpOneLine(t)
@@ -206,7 +213,14 @@ func VerifRun_C06() {
 
 func VerifRun_C11() {
 	lo, hi := verifParam("TMIN"), verifParam("TMAX")
+	extra := verifParamOr("TEXTRA", 0) // one more template from beyond the shared range
+	if extra > 0 {
+		hi++
+	}
 	ti := verifConcretize(verifRange("template", lo, hi))
+	if extra > 0 && ti == hi {
+		ti = extra
+	}
 	t := vpTemplates[ti]
 	if verifParam("LAYOUTS") > 1 && verifConcretize(verifRange("layout", 0, 1)) == 1 {
 		t = vpOneLine(t)
